@@ -46,6 +46,7 @@ type Hooks struct {
 	onGo        func(a *Act, st *State, g *ssa.Go)
 	onChan      func(a *Act, st *State, dir string, ch ssa.Value, v Term, pos token.Pos, cond Term)
 	onSelect    func(a *Act, st *State, in *ssa.Select, idx Term)
+	onCallArgs  func(a *Act, st *State, c *ssa.CallCommon, args []Term, pos token.Pos)
 	onFieldCall func(a *Act, st *State, fc *FuncContract, fv Term, args, results []Term, pos token.Pos)
 	onTCO       func(a *Act, st *State, li *loopInfo)
 	onRange     func(a *Act, st *State, in *ssa.Next, m, k, ok Term)
